@@ -551,4 +551,384 @@ theorem listed_resolves {s : CS D} (hc : CatInv s) (hf : FsInv s) {xs : List (Sn
       exact ⟨j, by omega, hyj⟩
 
 
+/-! ### bridge to C07: a reap inside an operation sequence -/
+
+theorem eq_of_name_eq {l : List (Snap D)} (hnd : (l.map (·.name)).Nodup) {x y : Snap D} (hx : x ∈ l) (hy : y ∈ l)
+    (e : x.name = y.name) : x = y := by
+  induction l with
+  | nil => cases hx
+  | cons a t ih =>
+    simp only [List.map_cons, List.nodup_cons] at hnd
+    rcases List.mem_cons.1 hx with rfl | hx' <;> rcases List.mem_cons.1 hy with rfl | hy'
+    · rfl
+    · exact absurd (List.mem_map.2 ⟨y, hy', e.symm⟩) hnd.1
+    · exact absurd (List.mem_map.2 ⟨x, hx', e⟩) hnd.1
+    · exact ih hnd.2 hx' hy'
+
+/-- every entry of the scan result is a listed directory with exactly these fields -/
+theorem scan_sound {s : CS D} (hc : CatInv s) (hf : FsInv s) {xs : List (Snap D)} (h : scan s.fs = .ok xs)
+    {x : Snap D} (hx : x ∈ xs) :
+    ∃ d, Live s.fs x.name d ∧ d.mt = some x.mt ∧ x.db = d.db ∧ x.crc = d.crc ∧ x.wals = d.wals ∧ x.mt.id = x.name := by
+  obtain ⟨xs', hxs', hlisted⟩ := scan_ok hc
+  rw [h] at hxs'
+  cases hxs'
+  obtain ⟨d, hl, hmt, hid, _, _, _⟩ := hlisted _ hx
+  obtain ⟨y, hy, hyn, hym, hydb, hycrc, hyw⟩ := scan_complete hf h hl
+  have := eq_of_name_eq (scan_names hf h).1 hy hx hyn
+  subst this
+  exact ⟨d, hl, hym, hydb, hycrc, hyw, hid⟩
+
+/-- the context of a reap of the current store -/
+def reapCtx (A : DbAlg D) (s : CS D) (o : List (Snap D)) (f : Snap D) (n : List (Snap D)) (d0 : D) (nn : Nat) : Ctx D :=
+  { A := A, names := s.fs.names, olds := o, full := f, newers := n, d0 := d0, newName := nn, verify := true,
+    fullNeeded := s.fs.fullNeeded, oldDw := fun m => (s.fs.dir m).bind (·.dbWal) }
+
+/-- the catalog invariant gives C07's well-formedness of the store before a reap -/
+theorem wf_of_inv (A : DbAlg D) (laws : DbLaws A) {s : CS D} (hc : CatInv s) (hf : FsInv s)
+    {xs o : List (Snap D)} {f : Snap D} {n : List (Snap D)} (hscan : scan s.fs = .ok xs)
+    (hsplit : splitLastFull xs = some (o, f, n)) (nn : Nat) (hnn : s.fs.dir nn = none) (hnn' : nn ∉ s.fs.names) :
+    ∃ d0 dw0, WF (reapCtx A s o f n d0 nn) s.fs dw0 := by
+  obtain ⟨hxs, hfdb, hninc⟩ := (splitLastFull_spec xs).1 o f n hsplit
+  have hnames := scan_names hf hscan
+  have hfm : f ∈ xs := by rw [hxs]; simp
+  obtain ⟨df, hlf, hfmt, hfdb', hfcrc, hfw, hfid⟩ := scan_sound hc hf hscan hfm
+  cases hd0 : f.db with
+  | none => rw [hd0] at hfdb; cases hfdb
+  | some d0 =>
+    refine ⟨d0, df.dbWal, ?_⟩
+    have hsn : (reapCtx A s o f n d0 nn).snaps = xs := hxs.symm
+    have hsub : ∀ y ∈ f :: n, y ∈ xs := by
+      intro y hy; rw [hxs]; exact List.mem_append_right _ hy
+    refine
+      { good := ?_, names := rfl, noPlan := hc.noPlan, noPlanTmp := hf.noPlanTmp, fn := rfl, scan := by rw [hsn]; exact hscan,
+        fullDb := hd0, dwOk := (hf.dws _ _ hlf).1, fullDir := ?_, newerDir := ?_, oldDir := ?_, others := ?_,
+        newDir := hnn, newersInc := hninc }
+    · refine { laws := laws, nodup := by rw [hsn]; exact hnames.1, fresh := ?_, freshNames := hnn', namesNodup := hf.nodup, wNodup := ?_ }
+      · rw [hsn]
+        intro hm
+        obtain ⟨y, hy, e⟩ := List.mem_map.1 hm
+        have e' : y.name = nn := e
+        exact hnn' (e' ▸ hnames.2 y hy)
+      · have : (reapCtx A s o f n d0 nn).W = (f :: n).flatMap walPaths := by
+          simp [Ctx.W, reapCtx, List.flatMap_cons]
+        rw [this]
+        apply walPaths_nodup
+        · have h1 := hnames.1
+          rw [hxs, List.map_append] at h1
+          exact (List.nodup_append.1 h1).2.1
+        · intro y hy
+          obtain ⟨d, hl, _, _, _, hw, _⟩ := scan_sound hc hf hscan (hsub y hy)
+          rw [hw]; exact (hf.dws _ _ hl).2.2
+    · show s.fs.dir f.name = _
+      rw [hlf.1]
+      have := hlf.2
+      cases df
+      simp only at hfmt hfdb' hfcrc hfw this ⊢
+      subst hfmt hfcrc hfw this
+      rw [← hfdb', hd0]
+      rfl
+    · intro y hy
+      obtain ⟨d, hl, hmt, hdb, hcrc, hw, _⟩ := scan_sound hc hf hscan (hsub y (List.mem_cons_of_mem _ hy))
+      have hyinc : y.db = none := hninc y hy
+      have hdw : d.dbWal = none := (hf.dws _ _ hl).2.1 (by rw [← hdb]; exact hyinc)
+      show s.fs.dir y.name = _
+      rw [hl.1]
+      have := hl.2
+      cases d
+      simp only at hmt hdb hcrc hw this hdw ⊢
+      subst hmt hdb hcrc hw this hdw
+      rfl
+    · intro y hy
+      have hyx : y ∈ xs := by rw [hxs]; exact List.mem_append_left _ hy
+      obtain ⟨d, hl, hmt, hdb, hcrc, hw, _⟩ := scan_sound hc hf hscan hyx
+      show s.fs.dir y.name = _
+      simp only [oldDirOf, reapCtx]
+      rw [hl.1]
+      have := hl.2
+      cases d
+      simp only at hmt hdb hcrc hw this ⊢
+      subst hmt hdb hcrc hw this
+      rfl
+    · intro m hm d hd
+      rw [hsn] at hm
+      cases ht : d.tmp with
+      | true => rfl
+      | false =>
+        exfalso
+        obtain ⟨y, hy, e, _⟩ := scan_complete hf hscan (n := m) (d := d) ⟨hd, ht⟩
+        exact hm (List.mem_map.2 ⟨y, hy, e⟩)
+
+/-- a store whose only listed directory is one complete full snapshot (and no sink is open)
+satisfies both invariants -/
+theorem inv_single {s : CS D} {t : FS D} (hsk : ∀ h k, getSink s h = some k → k.opened = false)
+    (hp : t.plan = none) (hpt : t.planTmp = false) (hnd : t.names.Nodup) (hnamed : ∀ n d, t.dir n = some d → n ∈ t.names)
+    (m : Nat) (dm : Dir D) (hone : ∀ n d, Live t n d → n = m ∧ d = dm) (hcm : Complete m dm) (hfull : dm.db.isSome)
+    (hdw : dm.dbWal = none ∨ dm.dbWal = some 0) (hw : dm.wals.Nodup) :
+    CatInv { s with fs := t } ∧ FsInv { s with fs := t } := by
+  have hno : ∀ h k, getSink ({ s with fs := t } : CS D) h = some k → k.opened = true → False := by
+    intro h k hk ho
+    have : getSink s h = some k := hk
+    rw [hsk h k this] at ho
+    cases ho
+  constructor
+  · exact
+      { complete := fun n d hl => by obtain ⟨rfl, rfl⟩ := hone n d hl; exact hcm
+        based := fun n d hl hdb => by
+          obtain ⟨rfl, rfl⟩ := hone n d hl
+          rw [hdb] at hfull; cases hfull
+        noPlan := hp
+        sinkTmp := fun h k hk ho => (hno h k hk ho).elim
+        sinkMax := fun h k hk ho => (hno h k hk ho).elim
+        incOK := fun h k w hk ho => (hno h k hk ho).elim
+        single := fun h h' k k' hk _ ho _ => (hno h k hk ho).elim }
+  · exact
+      { named := hnamed
+        nodup := hnd
+        noPlanTmp := hpt
+        dws := fun n d hl => by
+          obtain ⟨rfl, rfl⟩ := hone n d hl
+          exact ⟨hdw, (fun h => by rw [h] at hfull; cases hfull), hw⟩
+        sinkNamed := fun h k hk ho => (hno h k hk ho).elim
+        sinkWals := fun h k hk ho => (hno h k hk ho).elim }
+
+
+
+theorem same_cs (s : CS D) : ({ s with fs := s.fs } : CS D) = s := rfl
+
+/-- the result of an uninterrupted reap satisfies both invariants -/
+theorem reap_result_inv (A : DbAlg D) (laws : DbLaws A) {s : CS D} (hc : CatInv s) (hf : FsInv s) (nn : Nat)
+    (hsk : ∀ h k, getSink s h = some k → k.opened = false) (hnn : s.fs.dir nn = none) (hnn' : nn ∉ s.fs.names)
+    {t : FS D} (hr : reap A s.fs nn true = .ok t) :
+    CatInv { s with fs := t } ∧ FsInv { s with fs := t } := by
+  obtain ⟨xs, hscan, _⟩ := scan_ok hc
+  have hsame : ∀ {t : FS D}, Except.ok s.fs = (Except.ok t : Except String (FS D)) →
+      CatInv { s with fs := t } ∧ FsInv { s with fs := t } := by
+    intro t e; cases e; exact ⟨hc, hf⟩
+  cases hsp : splitLastFull xs with
+  | none =>
+    have hp : mkReapPlan xs nn true = (if xs.isEmpty then .ok none else .error "no-full") := by
+      simp [mkReapPlan, hsp]
+    simp only [reap, hc.noPlan, hscan, hp] at hr
+    cases he : xs.isEmpty
+    · rw [he] at hr; simp at hr
+    · rw [he] at hr; simp only [if_true] at hr; exact hsame hr
+  | some tr =>
+    obtain ⟨o, f, n⟩ := tr
+    obtain ⟨d0, dw0, w⟩ := wf_of_inv A laws hc hf hscan hsp nn hnn hnn'
+    obtain ⟨hxs, hfdb, hninc⟩ := (splitLastFull_spec xs).1 o f n hsp
+    have hfm : f ∈ xs := by rw [hxs]; simp
+    obtain ⟨df, hlf, hfmt, hfdb', hfcrc, hfw, hfid⟩ := scan_sound hc hf hscan hfm
+    have ht := othOf_tmpOnly w
+    let c := reapCtx A s o f n d0 nn
+    have hnamedOth : ∀ m d, othOf c s.fs m = some d → m ∈ s.fs.names := by
+      intro m d h
+      unfold othOf at h
+      split at h
+      · cases h
+      · exact hf.named m d h
+    -- the three shapes of the result
+    have single : o = [] → n = [] → CatInv { s with fs := t } ∧ FsInv { s with fs := t } := by
+      intro ho hn
+      have := reap_eq_single w ho hn
+      have e : reap A s.fs nn true = .ok s.fs := this
+      rw [e] at hr
+      exact hsame hr
+    have consolidate : c.W ≠ [] → (o ≠ [] ∨ n ≠ []) → CatInv { s with fs := t } ∧ FsInv { s with fs := t } := by
+      intro hW hm
+      have e : reap A s.fs nn true = .ok (mk c (othOf c s.fs) (.renamed (finalDw c)) none false) :=
+        reap_eq_consolidate w hW hm
+      rw [e] at hr
+      cases hr
+      refine inv_single hsk rfl rfl ?_ ?_ nn
+        { tmp := false, mt := some c.newMeta, db := some c.dF, crc := some c.dF, dbWal := finalDw c, wals := [] }
+        ?_ ⟨⟨c.newMeta, rfl, rfl⟩, Or.inl ⟨rfl, rfl⟩⟩ rfl (Or.inr rfl) List.nodup_nil
+      · show (s.fs.names ++ [nn]).Nodup
+        rw [List.nodup_append]
+        exact ⟨hf.nodup, by simp, fun a ha b hb eab => by
+          simp only [List.mem_singleton] at hb; rw [hb] at eab; rw [eab] at ha; exact hnn' ha⟩
+      · intro m d hd
+        show m ∈ s.fs.names ++ [nn]
+        rcases renamed_dir _ _ hd with ⟨rfl, _⟩ | h
+        · simp [c, reapCtx]
+        · exact List.mem_append_left _ (hnamedOth m d h)
+      · intro m d hl
+        rcases renamed_dir _ _ hl.1 with h | h
+        · exact h
+        · have := ht m d h
+          rw [hl.2] at this; cases this
+    have removeOnly : RmOnly c → CatInv { s with fs := t } ∧ FsInv { s with fs := t } := by
+      intro ro
+      have e : reap A s.fs nn true = .ok (mk c (othOf c s.fs) (st1 c c.R.length none dw0) none false) :=
+        reap_eq_removeOnly w ro
+      rw [e] at hr
+      cases hr
+      have hcf := hc.complete _ _ hlf
+      have hcrc : f.crc = some c.dF := by
+        rw [rmOnly_dF ro]
+        rcases hcf.data with ⟨_, h2⟩ | ⟨h1, _⟩
+        · rw [hfcrc, h2, ← hfdb']; exact w.fullDb
+        · rw [← hfdb'] at h1; rw [h1] at hfdb; cases hfdb
+      refine inv_single hsk rfl rfl hf.nodup ?_ f.name
+        { tmp := false, mt := some f.mt, db := some c.dF, crc := f.crc, dbWal := dw0, wals := [] }
+        ?_ ⟨⟨f.mt, rfl, hfid⟩, Or.inl ⟨rfl, hcrc⟩⟩ rfl w.dwOk List.nodup_nil
+      · intro m d hd
+        rcases removed_dir _ _ _ _ hd with ⟨rfl, _⟩ | h
+        · exact hf.named _ _ hlf.1
+        · exact hnamedOth m d h
+      · intro m d hl
+        rcases removed_dir _ _ _ _ hl.1 with h | h
+        · exact h
+        · have := ht m d h
+          rw [hl.2] at this; cases this
+    by_cases hW : c.W = []
+    · cases hn : n with
+      | nil =>
+        cases ho : o with
+        | nil => exact single ho hn
+        | cons a o' =>
+          apply removeOnly
+          refine ⟨hn, ?_, by show o ≠ []; rw [ho]; simp⟩
+          have : walPaths f ++ n.flatMap walPaths = [] := hW
+          have h1 := (List.append_eq_nil_iff.1 this).1
+          have h2 : f.wals = [] := by simpa [walPaths] using h1
+          exact h2
+      | cons y n' =>
+        exfalso
+        have hy : y ∈ n := by rw [hn]; simp
+        have hyx : y ∈ xs := by rw [hxs]; exact List.mem_append_right _ (List.mem_cons_of_mem _ hy)
+        obtain ⟨dy, hly, _, hydb, _, hyw, _⟩ := scan_sound hc hf hscan hyx
+        have hyinc := hninc y hy
+        rcases (hc.complete _ _ hly).data with ⟨h1, _⟩ | ⟨_, h2⟩
+        · rw [← hydb, hyinc] at h1; cases h1
+        · have : walPaths f ++ n.flatMap walPaths = [] := hW
+          have h3 := (List.append_eq_nil_iff.1 this).2
+          rw [hn, List.flatMap_cons] at h3
+          have h4 := (List.append_eq_nil_iff.1 h3).1
+          rw [← hyw] at h2
+          simp [walPaths] at h4
+          exact h2 h4
+    · by_cases hm : o ≠ [] ∨ n ≠ []
+      · exact consolidate hW hm
+      · have ho : o = [] := Classical.byContradiction fun h => hm (Or.inl h)
+        have hn : n = [] := Classical.byContradiction fun h => hm (Or.inr h)
+        exact single ho hn
+
+/-- reap inside an operation sequence keeps both invariants -/
+theorem reap_inv (A : DbAlg D) (laws : DbLaws A) {s : CS D} (hc : CatInv s) (hf : FsInv s) (nn : Nat)
+    (hok : OpOK' s (.reap nn)) :
+    CatInv (reapOp A s nn).1 ∧ FsInv (reapOp A s nn).1 := by
+  unfold reapOp
+  cases hr : reap A s.fs nn true with
+  | error e => exact ⟨hc, hf⟩
+  | ok t => exact reap_result_inv A laws hc hf nn hok.1 hok.2.1 hok.2.2 hr
+
+
+/-! ### operation sequences including reap -/
+
+theorem OpOK'.toOpOK {s : CS D} {op : COp D} (h : OpOK' s op) (hnr : ∀ nn, op ≠ .reap nn) : OpOK s op := by
+  cases op with
+  | reap nn => exact absurd rfl (hnr nn)
+  | create h name index term => exact h.1
+  | wfull h d ws v => trivial
+  | winc h ws => exact h.1
+  | close h => exact h
+  | cancel h => exact h
+  | closeRenameFails h => exact h
+  | setFull => exact h
+  | reopen => exact h
+  | crashClose h c => exact h
+
+/-- both invariants are kept by every admissible operation, reap included -/
+theorem step_inv' (A : DbAlg D) (laws : DbLaws A) {s : CS D} (hc : CatInv s) (hf : FsInv s) (op : COp D)
+    (hok : OpOK' s op) : CatInv (stepOp A s op).1 ∧ FsInv (stepOp A s op).1 := by
+  by_cases hr : ∃ nn, op = .reap nn
+  · obtain ⟨nn, rfl⟩ := hr
+    exact reap_inv A laws hc hf nn hok
+  · have hnr : ∀ nn, op ≠ .reap nn := fun nn e => hr ⟨nn, e⟩
+    exact ⟨step_inv A hc op (hok.toOpOK hnr), fsInv_step A hf hc op hok hnr⟩
+
+/-- every operation of the sequence (reap included) meets its side condition in the state it is applied to -/
+def OpsOK' (A : DbAlg D) : CS D → List (COp D) → Prop
+  | _, [] => True
+  | s, o :: os => OpOK' s o ∧ OpsOK' A (stepOp A s o).1 os
+
+theorem runOps_inv' (A : DbAlg D) (laws : DbLaws A) : ∀ (ops : List (COp D)) (s : CS D), CatInv s → FsInv s →
+    OpsOK' A s ops → CatInv (runOps A s ops) ∧ FsInv (runOps A s ops) := by
+  intro ops
+  induction ops with
+  | nil => intro s hc hf _; exact ⟨hc, hf⟩
+  | cons o os ih =>
+    intro s hc hf hok
+    have := step_inv' A laws hc hf o hok.1
+    exact ih _ this.1 this.2 hok.2
+
+
+/-! ### an executable check of the side conditions (for non-vacuity examples) -/
+
+theorem allClosed_spec {s : CS D} (h : allClosed s = true) : ∀ h' k, getSink s h' = some k → k.opened = false := by
+  intro h' k hk
+  unfold getSink at hk
+  cases hf : s.sinks.find? (·.1 == h') with
+  | none => rw [hf] at hk; cases hk
+  | some p =>
+    rw [hf] at hk
+    simp only [Option.map_some, Option.some.injEq] at hk
+    have hm := List.mem_of_find?_eq_some hf
+    have := List.all_eq_true.1 h p hm
+    rw [← hk]
+    simpa using this
+
+theorem okB_sound {s : CS D} (hf : FsInv s) {op : COp D} (h : okB s op = true) : OpOK' s op := by
+  cases op with
+  | create hh name index term =>
+    simp only [okB, Bool.and_eq_true, Option.isNone_iff_eq_none, Bool.not_eq_true', List.contains_eq_mem,
+      decide_eq_false_iff_not] at h
+    obtain ⟨⟨⟨h1, h2⟩, h3⟩, h4⟩ := h
+    refine ⟨⟨h1, allClosed_spec h2, ?_⟩, h3⟩
+    intro n d hl
+    have := List.all_eq_true.1 h4 n (hf.named n d hl.1)
+    rw [hl.1] at this
+    simp only [hl.2, Bool.false_or, decide_eq_true_eq] at this
+    exact this
+  | wfull hh d ws v =>
+    have h' : ws.Nodup := by simpa [okB] using h
+    exact h'
+  | winc hh ws =>
+    simp only [okB, Bool.and_eq_true, Bool.not_eq_true', decide_eq_true_eq] at h
+    exact ⟨fun e => by rw [e] at h; simp at h, h.2⟩
+  | close hh => trivial
+  | cancel hh => trivial
+  | closeRenameFails hh => trivial
+  | setFull => trivial
+  | reopen => trivial
+  | crashClose hh c =>
+    intro k hk
+    simp only [okB, hk, Bool.and_eq_true] at h
+    refine ⟨h.1, ?_⟩
+    intro wals hw
+    have := h.2
+    rw [hw] at this
+    simpa using this
+  | reap nn =>
+    simp only [okB, Bool.and_eq_true, Option.isNone_iff_eq_none, Bool.not_eq_true', List.contains_eq_mem,
+      decide_eq_false_iff_not] at h
+    exact ⟨allClosed_spec h.1.1, h.1.2, h.2⟩
+
+def opsOKB (A : DbAlg D) : CS D → List (COp D) → Bool
+  | _, [] => true
+  | s, o :: os => okB s o && opsOKB A (stepOp A s o).1 os
+
+theorem opsOKB_sound (A : DbAlg D) (laws : DbLaws A) : ∀ (ops : List (COp D)) (s : CS D), CatInv s → FsInv s →
+    opsOKB A s ops = true → OpsOK' A s ops := by
+  intro ops
+  induction ops with
+  | nil => intro _ _ _ _; trivial
+  | cons o os ih =>
+    intro s hc hf h
+    simp only [opsOKB, Bool.and_eq_true] at h
+    have ho := okB_sound hf h.1
+    have := step_inv' A laws hc hf o ho
+    exact ⟨ho, ih _ this.1 this.2 h.2⟩
+
+
 end RqModel.SnapCat
